@@ -67,6 +67,10 @@ type consumerGroup struct {
 	closed    chan none
 	closeOnce sync.Once
 
+	// errorsLock makes "is the group closed? if not, send on errors" atomic with respect to
+	// Close closing the errors channel
+	errorsLock sync.RWMutex
+
 	userData []byte
 }
 
@@ -130,6 +134,8 @@ func (c *consumerGroup) Close() (err error) {
 
 		// drain errors
 		go func() {
+			c.errorsLock.Lock()
+			defer c.errorsLock.Unlock()
 			close(c.errors)
 		}()
 		for e := range c.errors {
@@ -427,6 +433,8 @@ func (c *consumerGroup) handleError(err error, topic string, partition int32) {
 		return
 	}
 
+	c.errorsLock.RLock()
+	defer c.errorsLock.RUnlock()
 	select {
 	case <-c.closed:
 		// consumer is closed
